@@ -274,6 +274,19 @@ def _state_W(res, rel, T, P=None, count=True):
             if not _is_exc(v):
                 J.warning("scaled-units[P]", w, outside, "P in %s%s" % (pn, lab))
             res.symbols["P-unit:" + pn] += 1
+    if rel == "water_self_diffusion_coefficient" and v0 is not None:
+        # the uncertainty keyword (fit parameters shifted by multiples of their standard errors): the same physical value with
+        # plain numbers and with quantities, and a call with it leaves later calls without it as they were
+        for em in ((1, 1), (-1, 0.5)):
+            vp, _, _ = _call(res, lambda: f(T, err_mult=em, warn=False))
+            vp = J.value("err_mult", vp, None, None, 0, "plain err_mult=%r%s" % (em, lab))
+            vq, _, _ = _call(res, lambda: f(T * u.K, units=u, err_mult=em, warn=False))
+            J.value("err_mult", vq, unit, vp, TOL, "units=default_units, err_mult=%r%s" % (em, lab))
+            res.symbols["err_mult=%r" % (em,)] += 1
+        v, _, _ = _call(res, lambda: f(T * u.K, units=u, warn=False))
+        J.value("units-mode-after-err_mult", v, unit, v0, TOL, "units=default_units after calls with err_mult" + lab)
+        v, _, _ = _call(res, lambda: f(T, warn=False))
+        J.value("plain-after-err_mult", v, None, v0, 0.0, "plain after calls with err_mult" + lab)
     if count:
         res.states += 1
         res.nontrivial += 1
